@@ -35,6 +35,11 @@ pub trait Compiler {
     type Expression;
 
     fn compile(&mut self, tir: &AnyTir) -> Result<CompiledTx, Error>;
+
+    /// Forgets whatever the instance remembers from earlier compilations, so that the
+    /// resolution of a transaction doesn't depend on what the instance compiled before.
+    fn reset(&mut self) {}
+
     fn reduce_op(&self, op: Self::CompilerOp) -> Result<Self::Expression, crate::reduce::Error>;
 }
 
